@@ -32,6 +32,12 @@ class SimulatedCrash(BaseException):
     """Process death.  BaseException so that no library handler swallows it."""
 
 
+class SimulatedError(RuntimeError):
+    """An ordinary error (a bug in the user's _run_simulation, a full disk):
+    it propagates out of simulate() through the library's handlers for
+    Exception, and the user starts the simulation again."""
+
+
 class TrapInt(int):
     """Integer result value that can interrupt the MERGE it takes part in:
     ``merged += TrapInt`` calls __radd__, which raises when armed.  This puts
@@ -109,6 +115,8 @@ class Env(object):
             os._exit(137)
         if self.exc_kind == "ctrlc":
             raise KeyboardInterrupt(msg)
+        if self.exc_kind == "error":
+            raise SimulatedError(msg)
         raise SimulatedCrash(msg)
 
     def now(self):
